@@ -136,9 +136,10 @@ func (e *Exec) decide(asserts []*Term, timeoutS int, pref string, scriptPath str
 	try := []string{}
 	switch pref {
 	case "cvc5":
-		try = []string{"cvc5", "z3new", "z3"}
+		try = []string{"cvc5", "z3new"}
 	case "z3new":
-		try = []string{"z3new", "cvc5", "z3"}
+		// (z3 4.8.12 is deliberately not consulted here: it answered "unsat" on a satisfiable string query)
+		try = []string{"z3new", "cvc5"}
 	case "cvc5int":
 		try = []string{"cvc5int", "z3new", "cvc5"}
 	default:
